@@ -440,6 +440,10 @@ func r7init(c *core.Ctx) {
 	// NEA1 / NIA1: InitSnow3g dominates GenerateKeystream
 	for _, name := range []string{"NEA1", "NIA1"} {
 		f := mustFunc(c, pSec, name)
+		if u := snowUseX(f); u.ok {
+			c.Check(u.initFirst, RF, "security."+name+":init-before-keystream", f.Pos(), "one InitSnow3g, before the first GenerateKeystream, on every path that uses the generator", "%s must call InitSnow3g (once) before every GenerateKeystream", name)
+			continue
+		}
 		inits := core.CallsTo(f, pSnow+".InitSnow3g")
 		gens := core.CallsTo(f, pSnow+".GenerateKeystream")
 		ok := len(inits) == 1 && len(gens) >= 1
@@ -523,7 +527,41 @@ func r7iv(c *core.Ctx) {
 	{
 		fn := mustFunc(c, pSec, "NEA1")
 		p := core.NewPather(fn)
-		gk := onlyCall(c, R, fn, pSnow+".GenerateKeystream")
+		var gk *ssa.Call
+		if u := snowUseX(fn); u.ok && len(core.CallsTo(fn, pSnow+".GenerateKeystream")) != 1 {
+			// the request is not a single call in NEA1's own body (a helper makes it, or there are several)
+			key := "security.NEA1:snow3g.GenerateKeystream:count"
+			if !u.oneGen {
+				c.Fail(R, key, fn.Pos(), "expected exactly one call of snow3g.GenerateKeystream on every path, found %s", map[bool]string{true: "one per iteration of a loop", false: fmt.Sprintf("%d", u.minGen)}[u.genInLoop])
+			} else {
+				bad := ""
+				for _, w := range u.nWords {
+					for _, L := range []uint64{1, 7, 8, 9, 31, 32, 33, 63, 64, 65, 255, 256, 257, 1000, 4095, 4096, 4097, 65535, 65536, 1 << 20} {
+						got, okE := core.EvalBits(w.Bits, func(src string) (uint64, bool) {
+							if src == "p5" {
+								return L, true
+							}
+							return 0, false
+						})
+						if !okE {
+							bad = "the word count " + clip(core.ArgName(w)) + " does not depend on the bit length alone"
+							break
+						}
+						if got != (L+31)/32 {
+							bad = fmt.Sprintf("for LENGTH %d the request is %d words, want %d (%s)", L, got, (L+31)/32, clip(core.ArgName(w)))
+							break
+						}
+					}
+				}
+				pos := fn.Pos()
+				if u.genPos != nil {
+					pos = u.genPos.Pos()
+				}
+				c.Check(bad == "", R, "security.NEA1:keystream-words", pos, "ceil(length/32) words (folded for 20 lengths)", "keystream word count is wrong: %s", bad)
+			}
+		} else {
+			gk = onlyCall(c, R, fn, pSnow+".GenerateKeystream")
+		}
 		if gk != nil {
 			n := p.Path(gk.Call.Args[0])
 			c.Check(n == "((p5+31)/32)", R, "security.NEA1:keystream-words", gk.Pos(), n, "keystream word count is %s, want ceil(length/32)", n)
@@ -534,7 +572,25 @@ func r7iv(c *core.Ctx) {
 	{
 		fn := mustFunc(c, pSec, "NIA1")
 		p := core.NewPather(fn)
-		gk := onlyCall(c, R, fn, pSnow+".GenerateKeystream")
+		var gk *ssa.Call
+		if u := snowUseX(fn); u.ok && len(core.CallsTo(fn, pSnow+".GenerateKeystream")) != 1 {
+			key := "security.NIA1:snow3g.GenerateKeystream:count"
+			if !u.oneGen {
+				c.Fail(R, key, fn.Pos(), "expected exactly one call of snow3g.GenerateKeystream on every path, found %s", map[bool]string{true: "one per iteration of a loop", false: fmt.Sprintf("%d", u.minGen)}[u.genInLoop])
+			} else {
+				okW := len(u.nWords) > 0
+				got := ""
+				for _, w := range u.nWords {
+					if k, isK := w.ConstVal(); !isK || k != 5 {
+						okW = false
+						got = clip(core.ArgName(w))
+					}
+				}
+				c.Check(okW, R, "security.NIA1:keystream-words", fn.Pos(), "5 words z1..z5", "EIA1 needs exactly 5 keystream words, requests %s", got)
+			}
+		} else {
+			gk = onlyCall(c, R, fn, pSnow+".GenerateKeystream")
+		}
 		if gk != nil {
 			n, okN := core.ConstInt(gk.Call.Args[0])
 			c.Check(okN && n == 5, R, "security.NIA1:keystream-words", gk.Pos(), "5 words z1..z5", "EIA1 needs exactly 5 keystream words, requests %s", p.Path(gk.Call.Args[0]))
@@ -691,7 +747,30 @@ func r7keywords(c *core.Ctx, R string, fn *ssa.Function, name string, initCall *
 // Two spellings are decided: (A) words i with an inner octet loop j, e = 4i+j, plus a tail
 // of ceil(r/8) octets of word LENGTH/32; (B) one octet loop e with word e/4 and shift
 // 8*(3 - e%4). The octet range is checked for every residue of LENGTH mod 32.
+// r7nea1apply: the semantic, bounded decision first (c07nea1x.go); then the loop forms, which - when
+// they are of the recognised kind - extend it to every LENGTH.
 func r7nea1apply(c *core.Ctx, R string, fn *ssa.Function) {
+	decided, okX, whyX := r7nea1applyX(c, R, fn)
+	if decided && !okX {
+		c.Fail(R, "security.NEA1:keystream-application", fn.Pos(), "NEA1 must XOR octet e mod 4 (most significant first) of keystream word e div 4 onto octet e, for every e below ceil(LENGTH/8): %s", whyX)
+		return
+	}
+	status, detail := r7nea1applyForm(c, R, fn)
+	switch {
+	case status == 0:
+		c.Ok(R, "security.NEA1:keystream-application", fn.Pos(), "obs[e] = ibs[e] ^ octet (e mod 4) of ks[e div 4] for e < ceil(LENGTH/8)"+map[bool]string{true: fmt.Sprintf("; also folded for %d bit lengths", len(nea1Lengths)), false: ""}[decided])
+	case decided:
+		c.Ok(R, "security.NEA1:keystream-application", fn.Pos(), fmt.Sprintf("obs[e] = ibs[e] ^ octet (e mod 4) of ks[e div 4], folded for %d bit lengths (1..160 and %d larger ones)", len(nea1Lengths), len(nea1Lengths)-160))
+		c.Note("R7.iv: NEA1's keystream application is decided for the listed lengths only; its loops are not of the form that extends it to every LENGTH (%s)", clip(detail))
+	case status == 1:
+		c.SoftUndecided("NEA1: %s (%s)", detail, whyX)
+	default:
+		c.Fail(R, "security.NEA1:keystream-application", fn.Pos(), "NEA1 must XOR octet e mod 4 (most significant first) of keystream word e div 4 onto octet e, for every e below ceil(LENGTH/8): %s", detail)
+	}
+}
+
+// r7nea1applyForm: 0 recognised and right for every LENGTH, 1 not of a recognised form, 2 recognised and wrong.
+func r7nea1applyForm(c *core.Ctx, R string, fn *ssa.Function) (int, string) {
 	p := core.NewPather(fn)
 	type app struct {
 		st         *ssa.Store
@@ -775,8 +854,7 @@ func r7nea1apply(c *core.Ctx, R string, fn *ssa.Function) {
 					}
 				}
 				if staged {
-					c.SoftUndecided("NEA1: the keystream octet xored onto %s is staged in a local buffer (%s); the application is not decided", clip(p.Path(a.e)), clip(p.Path(a.st.Val)))
-					return
+					return 1, fmt.Sprintf("the keystream octet xored onto %s is staged in a local buffer (%s)", clip(p.Path(a.e)), clip(p.Path(a.st.Val)))
 				}
 			}
 			bad = "an output octet is not input octet xor keystream octet: " + clip(p.Path(a.st.Val))
@@ -843,12 +921,12 @@ func r7nea1apply(c *core.Ctx, R string, fn *ssa.Function) {
 		coverWhy = fmt.Sprintf("%d word/octet-loop stores, %d single-loop stores", formA, formB)
 	}
 	if len(apps) == 0 {
-		c.SoftUndecided("NEA1: no store into the output buffer found (keystream application moved elsewhere)")
-		return
+		return 1, "no store into the output buffer found (keystream application moved elsewhere)"
 	}
-	c.Check(bad == "" && okCover, R, "security.NEA1:keystream-application", fn.Pos(),
-		"obs[e] = ibs[e] ^ octet (e mod 4) of ks[e div 4] for e < ceil(LENGTH/8)",
-		"NEA1 must XOR octet e mod 4 (most significant first) of keystream word e div 4 onto octet e, for every e below ceil(LENGTH/8): %s %s", bad, coverWhy)
+	if bad == "" && okCover {
+		return 0, ""
+	}
+	return 2, bad + " " + coverWhy
 }
 
 // NIA1: P, Q from z1..z4, message blocks, length block, MAC = top half ^ z5
@@ -1068,10 +1146,36 @@ func r7nia1blocks(c *core.Ctx) {
 	c.Rule(R, "NIA1: for every LENGTH mod 64 the loop folds ceil(LENGTH/64)-1 full blocks and the final block starts at octet 8*(ceil(LENGTH/64)-1)")
 	fn := mustFunc(c, pSec, "NIA1")
 	p := core.NewPather(fn)
+	// the block loop may live in a helper of the package that NIA1 hands the message and its bit
+	// length to: the rule then reads the helper, with the two parameters found through the call
+	msgP, lenP := "p4", "p5"
+	if len(loopBounds(fn)) == 0 {
+		for _, ci := range core.Calls(fn) {
+			g := ci.Common().StaticCallee()
+			if g == nil || fnPkgPath(g) != pSec || len(g.Blocks) == 0 || len(loopBounds(g)) == 0 || len(core.CallsTo(g, pSec+".mul")) == 0 {
+				continue
+			}
+			mi, li := -1, -1
+			for i, a := range ci.Common().Args {
+				switch p.Path(a) {
+				case "p4":
+					mi = i
+				case "p5":
+					li = i
+				}
+			}
+			if mi >= 0 && li >= 0 {
+				fn, p = g, core.NewPather(g)
+				msgP, lenP = fmt.Sprintf("p%d", mi), fmt.Sprintf("p%d", li)
+				c.Note("%s: the block loop of NIA1 is read in its helper %s (message %s, LENGTH %s)", R, g.Name(), msgP, lenP)
+				break
+			}
+		}
+	}
 	var limit ssa.Value
 	var idxLoop, idxTail ssa.Value
 	for _, l := range loopBounds(fn) {
-		if l.initOK && l.init == 0 && l.step == 1 && l.op == token.LSS && !l.limitOK && strings.Contains(l.limitPath, "p5") {
+		if l.initOK && l.init == 0 && l.step == 1 && l.op == token.LSS && !l.limitOK && strings.Contains(l.limitPath, lenP) {
 			iff := l.header.Instrs[len(l.header.Instrs)-1].(*ssa.If)
 			limit = iff.Cond.(*ssa.BinOp).Y
 		}
@@ -1080,7 +1184,7 @@ func r7nia1blocks(c *core.Ctx) {
 	for _, b := range fn.Blocks {
 		for _, in := range b.Instrs {
 			sl, ok := in.(*ssa.Slice)
-			if !ok || p.Path(sl.X) != "p4" || sl.Low == nil {
+			if !ok || p.Path(sl.X) != msgP || sl.Low == nil {
 				continue
 			}
 			if strings.Contains(p.Path(sl.Low), "iv") {
@@ -1099,7 +1203,7 @@ func r7nia1blocks(c *core.Ctx) {
 			a := ci.Common().Args
 			dst := p.Path(a[0])
 			fresh8 := strings.HasPrefix(dst, "makeslice(8)") || strings.HasPrefix(dst, "local:*[8]byte#") || strings.HasPrefix(dst, "local:*[8]uint8#")
-			if fresh8 && strings.Contains(p.Path(a[1]), "p4[") {
+			if fresh8 && strings.Contains(p.Path(a[1]), msgP+"[") {
 				padded = true
 			}
 		}
@@ -1110,7 +1214,7 @@ func r7nia1blocks(c *core.Ctx) {
 			if r > 0 {
 				wb = 1
 			}
-			lf := evalResidue(p, limit, "p5", 64, r, 0)
+			lf := evalResidue(p, limit, lenP, 64, r, 0)
 			if !lf.ok {
 				c.Undecided("NIA1: block-count expression %s is outside the residue-class evaluator", p.Path(limit))
 			}
@@ -1133,14 +1237,14 @@ func r7nia1blocks(c *core.Ctx) {
 		if r > 0 {
 			wb = 0
 		}
-		lf := evalResidue(p, limit, "p5", 64, r, 0)
+		lf := evalResidue(p, limit, lenP, 64, r, 0)
 		if !lf.ok {
 			c.Undecided("NIA1: block-count expression %s is outside the residue-class evaluator", p.Path(limit))
 		}
 		if lf.a != want || lf.b != wb {
 			bad = fmt.Sprintf("LENGTH = 64q+%d: loop folds %dq%+d full blocks, want q%+d (expression %s)", r, lf.a, lf.b, wb, p.Path(limit))
 		}
-		tf := evalResidue(p, idxTail, "p5", 64, r, 0)
+		tf := evalResidue(p, idxTail, lenP, 64, r, 0)
 		if !tf.ok {
 			c.Undecided("NIA1: tail offset expression %s is outside the residue-class evaluator", p.Path(idxTail))
 		}
